@@ -147,6 +147,44 @@ impl c2pa::http::SyncHttpResolver for ScriptedRef {
     }
 }
 
+#[async_trait::async_trait]
+impl c2pa::http::AsyncHttpResolver for ScriptedRef {
+    async fn http_resolve_async(
+        &self,
+        request: http::Request<Vec<u8>>,
+    ) -> Result<http::Response<Box<dyn std::io::Read>>, c2pa::http::HttpResolverError> {
+        c2pa::http::SyncHttpResolver::http_resolve(self, request)
+    }
+}
+
+#[async_trait::async_trait]
+impl c2pa::http::AsyncHttpResolver for Recorder {
+    async fn http_resolve_async(
+        &self,
+        request: http::Request<Vec<u8>>,
+    ) -> Result<http::Response<Box<dyn std::io::Read>>, c2pa::http::HttpResolverError> {
+        c2pa::http::SyncHttpResolver::http_resolve(self, request)
+    }
+}
+
+/// minimal executor: the scripted transports never yield, so one poll completes the future
+fn block_on<F: std::future::Future>(fut: F) -> F::Output {
+    use std::task::{Context, Poll, RawWaker, RawWakerVTable, Waker};
+    fn noop(_: *const ()) {}
+    fn clone(_: *const ()) -> RawWaker {
+        RawWaker::new(std::ptr::null(), &VTABLE)
+    }
+    static VTABLE: RawWakerVTable = RawWakerVTable::new(clone, noop, noop, noop);
+    let waker = unsafe { Waker::from_raw(RawWaker::new(std::ptr::null(), &VTABLE)) };
+    let mut cx = Context::from_waker(&waker);
+    let mut fut = Box::pin(fut);
+    loop {
+        if let Poll::Ready(v) = fut.as_mut().poll(&mut cx) {
+            return v;
+        }
+    }
+}
+
 fn call(f: &str, a: &[Value]) -> Value {
     match f {
         "to_manifest_uri" => json!(lh::to_manifest_uri(s(&a[0]))),
@@ -187,7 +225,62 @@ fn call(f: &str, a: &[Value]) -> Value {
             Ok(p) => json!({"variant":"Ok","payload":[p.to_string_lossy()]}),
             Err(_) => json!({"variant":"Err","payload":[null]}),
         },
+        // C14: args = [sig_len, other|null, end_size|null] -> Ok(len) | Err(text)
+        "pad_cose_sig" => {
+            let other = a[1].as_u64().map(|n| n as usize);
+            let end = a[2].as_u64().map(|n| n as usize);
+            match c2pa::crypto::cose::sign_verif_hooks::pad_cose_sig_len(a[0].as_u64().unwrap() as usize, other, end) {
+                Ok(n) => json!({"ok": true, "len": n}),
+                Err(_) => json!({"ok": false, "len": 0}),
+            }
+        }
+        // C14: args = [hash_len, start_pad, desired_extra] : DataHash::pad_to_size(base + extra)
+        "data_hash_pad" => {
+            use c2pa::assertions::DataHash;
+            use c2pa::verif_hooks::assertion::data_len;
+            let mut d = DataHash::new("jumbf manifest", "sha256");
+            d.set_hash(vec![7u8; a[0].as_u64().unwrap() as usize]);
+            d.add_padding(vec![0u8; a[1].as_u64().unwrap() as usize]);
+            let base = data_len(&d).unwrap();
+            let desired = (base as i64 + a[2].as_i64().unwrap()) as usize;
+            let r = d.pad_to_size(desired);
+            let fin = data_len(&d).unwrap();
+            json!({"base": base, "desired": desired, "ok": r.is_ok(), "final": fin, "pad": d.pad.len(), "has_pad2": d.pad2.is_some(), "pad2": d.pad2.as_ref().map(|p| p.len()).unwrap_or(0)})
+        }
         "merkle_scenario" => merkle_scenario(a),
+        // sync vs async twins of the two resolver wrappers on the same script
+        "redirect_chain_both" => {
+            let allow = a[0].as_bool().unwrap();
+            let hops: Vec<(bool, bool, bool)> = a[1].as_array().unwrap().iter()
+                .map(|h| (h["redirect"].as_bool().unwrap(), h["internal"].as_bool().unwrap(), h["error"].as_bool().unwrap())).collect();
+            let mk = || std::sync::Arc::new(Scripted { hops: hops.clone(), calls: std::sync::atomic::AtomicUsize::new(0), reached_internal: std::sync::atomic::AtomicBool::new(false) });
+            let (ts, ta) = (mk(), mk());
+            let req = || http::Request::get("http://example.com/start").body(Vec::new()).unwrap();
+            let rs = rh::redirect_resolve(ScriptedRef(ts.clone()), allow, req());
+            let ra = block_on(rh::redirect_resolve_async(ScriptedRef(ta.clone()), allow, req()));
+            let es = rs.as_ref().err().map(|e| e.to_string());
+            let ea = ra.as_ref().err().map(|e| e.to_string());
+            json!({"sync_ok": rs.is_ok(), "async_ok": ra.is_ok(), "sync_calls": ts.calls.load(std::sync::atomic::Ordering::SeqCst),
+                   "async_calls": ta.calls.load(std::sync::atomic::Ordering::SeqCst), "same_error": es == ea})
+        }
+        "restricted_both" => match uri_of(&a[1]) {
+            Ok(u) => {
+                let mk = || {
+                    let mut r = c2pa::http::restricted::RestrictedResolver::new(Recorder::default());
+                    if let Some(ps) = a[0].as_array() {
+                        r.set_allowed_hosts(Some(ps.iter().map(|p| HostPattern::new(s(p))).collect()));
+                    }
+                    r
+                };
+                let req = || http::Request::get(u.clone()).body(Vec::new()).unwrap();
+                let rs = c2pa::http::SyncHttpResolver::http_resolve(&mk(), req());
+                let reached_s = REACHED.with(|c| c.replace(false));
+                let ra = block_on(c2pa::http::AsyncHttpResolver::http_resolve_async(&mk(), req()));
+                let reached_a = REACHED.with(|c| c.replace(false));
+                json!({"sync_ok": rs.is_ok(), "async_ok": ra.is_ok(), "sync_reached": reached_s, "async_reached": reached_a})
+            }
+            Err(e) => json!({"uri_error": e}),
+        },
         // PngIO::get_box_map on raw bytes: args = [file bytes (latin-1)]
         "png_box_map" => {
             use c2pa::verif_hooks::{png_io::PngIO, AssetBoxHash, AssetIO};
